@@ -143,6 +143,10 @@ def check_step(case, ctx):
         "first-order/EKF.f": (lambda: F.EKF().f(q0.copy(), w.copy(), dt), first),
         "first-order/ROLEQ.attitude_propagation": (lambda: F.ROLEQ().attitude_propagation(q0.copy(), w.copy(), dt), first),
         "first-order/AngularRate.series1": (lambda: F.AngularRate().update(q0.copy(), w.copy(), method="series", order=1, dt=dt), first),
+        # both field sensors dropped out in the same sample: still nothing but the gyroscope to go by
+        "first-order/Madgwick.updateMARG[mag null too]": (lambda: F.Madgwick().updateMARG(q0.copy(), w.copy(), z.copy(), z.copy(), dt=dt), first),
+        "first-order/Mahony.updateMARG[mag null too]": (lambda: F.Mahony().updateMARG(q0.copy(), w.copy(), z.copy(), z.copy(), dt=dt), first),
+        "first-order/AQUA.updateMARG[mag null too]": (lambda: F.AQUA().updateMARG(q0.copy(), w.copy(), z.copy(), z.copy(), dt=dt), first_aqua),
     }
     for r, (fn, ref) in routes.items():
         out = call(fn)
